@@ -149,14 +149,31 @@ def run_unit(name, path, devs, tier, seed, workdir, only_props=None, verus_extra
         return res
     rlimit = rlimit or unit.get('rlimit')
     extra = list(verus_extra or [])
-    try:
-        vr = verus.run_verus(text, workdir, name, rlimit=rlimit, timeout=unit.get('timeout', 900), extra=extra)
-    except Undecided as ex:
-        res['status'] = 'undecided'
-        res['notes'].append(str(ex))
-        return res
-    res['verus_cmd'] = vr['cmd'].replace(workdir, '<scratch>')
-    ev = verus.evaluate(vr, meta)
+    explicit_rlimit = rlimit is not None and rlimit != unit.get('rlimit')
+    attempt = 0
+    while True:
+        try:
+            vr = verus.run_verus(text, workdir, name, rlimit=rlimit, timeout=unit.get('timeout', 900), extra=extra)
+        except Undecided as ex:
+            res['status'] = 'undecided'
+            res['notes'].append(str(ex))
+            return res
+        res['verus_cmd'] = vr['cmd'].replace(workdir, '<scratch>')
+        ev = verus.evaluate(vr, meta)
+        # A template lemma (no extracted code in it) that runs into the resource limit although nothing else is wrong is
+        # re-tried under another solver seed, at most twice: the same text was seen to need < 40 and > 120 resource units in
+        # different processes (declaration order in the query is not stable across processes). A proof found under any
+        # seed is a proof; running out of resources is 'undecided' either way, never an alarm. Not done for the
+        # half-rlimit stability run, nor when a function with extracted code is in trouble (a failing tree).
+        lemma_rl = [h for h in ev['hard'] if not h['item'] and re.search(r'rlimit|Resource limit', h['message'], re.I)]
+        other = [h for h in ev['hard'] if h not in lemma_rl and not (h['item'] or '').endswith('__canary')]
+        if (lemma_rl and not other and not ev['failures'] and not ev['vir_error'] and not ev['crashed'] and ev['have_json']
+                and not explicit_rlimit and attempt < 2):
+            attempt += 1
+            extra = list(verus_extra or []) + ['--smt-option', 'smt.random_seed=%d' % (7919 * attempt)]
+            res['notes'].append('template lemma hit the resource limit; re-run %d under another solver seed' % attempt)
+            continue
+        break
     res['smt_s'] = (ev['smt_ms'] or 0) / 1000.0
     # resource-limit / solver trouble attributed to ONE function makes that function undecided, not the unit
     soft_items = {}
